@@ -20,19 +20,38 @@ def ensure_deps():
     return
 
 
-def run_shard(prop, tier, seed, spec, timeout, replay=None):
+def ambient_for(index, replay=None):
+    """Process-wide conditions a shard runs under.  They are rotated over the shards (deterministically, by shard index), so
+    that an answer which depends on the string-hash seed (set / dict-of-set iteration order), on the current directory
+    (a data file opened by a relative path) or on assert statements being executed (python -O strips them) meets more than the one combination the pinned tests run under.  A witness
+    records the conditions of its shard and --replay restores them."""
+    if replay:
+        try:
+            with open(replay) as f:
+                for w in json.load(f).get('witnesses', []):
+                    if w.get('ambient'):
+                        return w['ambient']
+        except Exception:
+            pass
+        return {'hashseed': '0', 'cwd': core.VERIF, 'optimize': False}
+    return {'hashseed': str(index % 5), 'cwd': [core.VERIF, core.REPO, '/'][index % 3], 'optimize': index % 4 == 3}
+
+
+def run_shard(prop, tier, seed, spec, timeout, replay=None, index=0):
     fd, out = tempfile.mkstemp(prefix='vf-%s-' % prop, suffix='.json', dir=os.environ.get('VERIF_TMP', None))
     os.close(fd)
     env = dict(os.environ)
-    env['PYTHONHASHSEED'] = '0'
+    amb = ambient_for(index, replay)
+    env['PYTHONHASHSEED'] = amb['hashseed']
+    env['VERIF_AMBIENT'] = json.dumps(amb)
     env['PYTHONPATH'] = core.VERIF
     env['VERIF_REPO'] = core.REPO
-    cmd = ['/venv/bin/python', '-X', 'faulthandler', '-m', 'vf.worker', prop, tier, str(seed), json.dumps(spec), out]
+    cmd = ['/venv/bin/python', '-X', 'faulthandler'] + (['-O'] if amb.get('optimize') else []) + ['-m', 'vf.worker', prop, tier, str(seed), json.dumps(spec), out]
     if replay:
         cmd.append(replay)
     t = time.time()
     try:
-        p = subprocess.run(cmd, env=env, cwd=core.VERIF, timeout=timeout, stdout=subprocess.PIPE,
+        p = subprocess.run(cmd, env=env, cwd=amb['cwd'], timeout=timeout, stdout=subprocess.PIPE,
                            stderr=subprocess.PIPE, text=True)
         try:
             with open(out) as f:
@@ -77,7 +96,7 @@ def main(argv=None):
     specs = mod.shards(a.tier, a.seed)
     timeout = mod.META.get('timeout', {}).get(a.tier, 1500 if a.tier == 'quick' else 7200)
     with ThreadPoolExecutor(max_workers=NCPU) as ex:
-        dumps = list(ex.map(lambda s: run_shard(prop, a.tier, a.seed, s, timeout), specs))
+        dumps = list(ex.map(lambda js: run_shard(prop, a.tier, a.seed, js[1], timeout, index=js[0]), list(enumerate(specs))))
     merged = core.merge(dumps)
     meta = dict(mod.META)
     meta['shards'] = len(specs)
